@@ -27,8 +27,16 @@ def regex_sites(cx, port, mods=None):
     out = []
     for m in mods:
         consts = p.module_consts(m)
+        compiled_mod = {}
+        for st in p.modules[m].body:
+            if isinstance(st, ast.Assign) and isinstance(st.targets[0], ast.Name) and isinstance(st.value, ast.Call) and dotted(st.value.func) == 're.compile' and st.value.args:
+                compiled_mod[st.targets[0].id] = st.value
         for fd in p.funcs_in(m):
             local = dict(consts)
+            compiled = dict(compiled_mod)
+            for n in walk_no_nested(fd):
+                if isinstance(n, ast.Assign) and isinstance(n.targets[0], ast.Name) and isinstance(n.value, ast.Call) and dotted(n.value.func) == 're.compile' and n.value.args:
+                    compiled[n.targets[0].id] = n.value
             for n in walk_no_nested(fd):
                 if isinstance(n, ast.Assign) and isinstance(n.targets[0], ast.Name):
                     v = _pattern_value(n.value, local)
@@ -44,6 +52,13 @@ def regex_sites(cx, port, mods=None):
                     # re.sub(p, r, s, count?, flags?) positional flags are at index 4; re.search(p, s, flags) at index 2
                     ic = 'IGNORECASE' in ftxt or 're.I' in ftxt.split() or (pat is not None and pat.startswith('(?i)'))
                     out.append(RegexSite(c, fd, pat, ic, ftxt.strip(), d))
+                elif port == 'py' and isinstance(c.func, ast.Attribute) and isinstance(c.func.value, ast.Name) and c.func.value.id in compiled and c.func.attr in ('match', 'search', 'sub', 'finditer', 'findall', 'fullmatch', 'split'):
+                    # a method of a pattern compiled elsewhere (module level or earlier in the function): same site, pattern from the compile call
+                    cc = compiled[c.func.value.id]
+                    pat = _pattern_value(cc.args[0], local)
+                    ftxt = ' '.join(node_text(a) for a in cc.args[1:]) + ' ' + ' '.join(node_text(k.value) for k in cc.keywords if k.arg == 'flags')
+                    ic = 'IGNORECASE' in ftxt or 're.I' in ftxt.split() or (pat is not None and pat.startswith('(?i)'))
+                    out.append(RegexSite(c, fd, pat, ic, ftxt.strip(), 're.' + c.func.attr))
                 elif port == 'js' and d == '__regex__':
                     out.append(RegexSite(c, fd, c.args[0].value, 'i' in c.args[1].value, c.args[1].value, 'literal'))
                 elif port == 'js' and d == 'RegExp' and c.args:
@@ -363,13 +378,41 @@ def rule_pa_lit(cx, rep, port):
             rep.violated(key, r, 'a {} is raised depending on the raw query text (string literal contents included): text inside quotes can change how the query is parsed'.format(node_text(r.exc.func) if r.exc is not None and isinstance(r.exc, ast.Call) else 'error'))
     clean = [fd for fd in seen_fd.values() if not any(f is fd for f, _, _ in findings)]
     rep.holds('functions with raw text and no dependent raise', (p.files[mod], 0), '{} functions receive raw query text; {} of them raise nothing that depends on it'.format(n_funcs, len(clean)))
-    # structural matchers must receive literal-free text
+
+
+def rule_pa_litflow(cx, rep, port):
+    """in the shallow parser, every function that matches structure receives literal-free text, and every fragment handed to the
+    code generator has its literals re-inserted afterwards"""
+    p = cx.port(port)
+    mod = cx.engine_mod(port)
+    mods = [m for m in p.modules if m not in ('rbql_main', 'rbql_ipython', '__init__', 'cli_rbql', 'cli_parser', 'index')]
+    by_name = {}
+    for key, fd in p.funcs.items():
+        m, q = key.split(':')
+        if m in mods:
+            by_name.setdefault(q.split('.')[-1], []).append((m, fd))
+    USER_FUNCS.clear()
+    USER_FUNCS.update(by_name.keys())
     sp = p.func(mod, 'shallow_parse_input_query')
-    tv = _local_taint(sp, {'query_text'})
+    tv = _local_taint(sp, {'query_text'}, lit_list=True)   # here the extracted literal list counts as literal content too
     for c in walk_no_nested(sp):
         if isinstance(c, ast.Call) and call_name(c) in ('separate_actions', 'remove_redundant_input_table_name', 'remove_redundant_table_name', 'generate_init_statements', 'translate_select_expression', 'translate_update_expression', 'translate_except_expression', 'parse_join_expression', 'find_top'):
-            bad = [a for a in c.args if _expr_tainted(a, tv)]
+            bad = [a for a in c.args[:1] if _expr_tainted(a, tv)]   # the text operand (the literal list is a legitimate further operand of some)
             rep.decide(not bad, 'structural matcher {}'.format(call_name(c)), c, 'receives literal-free text', '{} receives text that still contains string literal contents (`{}`)'.format(call_name(c), node_text(bad[0]) if bad else ''))
+    # any other engine function that is handed literal-bearing text must not match structure in it
+    named = ('separate_actions', 'remove_redundant_input_table_name', 'remove_redundant_table_name', 'generate_init_statements', 'translate_select_expression', 'translate_update_expression', 'translate_except_expression', 'parse_join_expression', 'find_top')
+    for c in walk_no_nested(sp):
+        if not (isinstance(c, ast.Call) and c.args and _expr_tainted(c.args[0], tv)):
+            continue
+        short = (call_name(c) or '').split('.')[-1]
+        if short in named or short in LIT_RECEIVERS or short not in by_name:
+            continue
+        hit = None
+        for m, g in by_name[short]:
+            params = [a.arg for a in g.args.args if a.arg != 'self']
+            if params:
+                hit = hit or _applies_matching(g, params[0], by_name, 0)
+        rep.decide(hit is None, 'literal-bearing text passed to {}'.format(short), c, '{} does no pattern matching on it'.format(short), '{} receives text with the string literals re-inserted and matches structure in it (`{}`): literal contents can change the parse'.format(short, node_text(hit, 80) if hit is not None else ''))
     # every fragment stored into query_context passes through combine_string_literals
     stores = [n for n in walk_no_nested(sp) if isinstance(n, ast.Assign) and (dotted(n.targets[0]) or '').startswith('query_context.') and dotted(n.targets[0]).split('.')[1] in ('where_expression', 'select_expression', 'update_expressions', 'sort_key_expression', 'aggregation_key_expression', 'variables_init_code')]
     for s in stores:
@@ -382,7 +425,46 @@ def rule_pa_lit(cx, rep, port):
     rep.require_count('context fragments', len(stores), 6, sp)
 
 
-def _local_taint(fd, params):
+LIT_RECEIVERS = {
+    'cleanup_query': 'line-level cleanup before extraction (PA-LITORDER decides what it may do)',
+    'separate_string_literals': 'the extraction itself',
+    'combine_string_literals': 'replaces the markers, which literal contents cannot contain (PA-LITORDER: markers)',
+    'get_variables_map': 'variable discovery scans the raw text on purpose: a name that only occurs inside a literal is initialised needlessly, which changes nothing (raises that depend on it are the PA-LIT findings)',
+    'ast_parse_select_expression_to_column_infos': "Python's own parser: a literal is one token",
+}
+MATCHING_METHODS = {'find', 'rfind', 'index', 'indexOf', 'lastIndexOf', 'split', 'replace', 'replaceAll', 'search', 'match', 'matchAll', 'exec', 'test', 'startswith', 'endswith', 'startsWith', 'endsWith', 'partition', 'rpartition', 'count', 'includes'}
+
+
+def _applies_matching(fd, param, by_name, depth):
+    """first call in fd (or, to depth 3, in its callees) that matches a pattern against text derived from `param`"""
+    tv = _local_taint(fd, {param})
+    for c in walk_no_nested(fd):
+        if not isinstance(c, ast.Call):
+            continue
+        d = dotted(c.func) or ''
+        if d.startswith('re.') and any(_expr_tainted(a, tv) for a in c.args[1:]):
+            return c
+        if isinstance(c.func, ast.Attribute) and c.func.attr in MATCHING_METHODS and (_expr_tainted(c.func.value, tv) or any(_expr_tainted(a, tv) for a in c.args)):
+            return c
+    if depth >= 3:
+        return None
+    for c in walk_no_nested(fd):
+        if not isinstance(c, ast.Call):
+            continue
+        short = (call_name(c) or '').split('.')[-1]
+        if short in LIT_RECEIVERS:
+            continue
+        for m, g in by_name.get(short, []):
+            params = [a.arg for a in g.args.args if a.arg != 'self']
+            for i, a in enumerate(c.args):
+                if i < len(params) and _expr_tainted(a, tv):
+                    h = _applies_matching(g, params[i], by_name, depth + 1)
+                    if h is not None:
+                        return h
+    return None
+
+
+def _local_taint(fd, params, lit_list=False):
     tv = set(params)
     changed = True
     while changed:
@@ -403,6 +485,13 @@ def _local_taint(fd, params):
             if val is None:
                 continue
             if isinstance(val, ast.Call) and (call_name(val) or '').split('.')[-1] == 'separate_string_literals':
+                # (literal-free text, list of the literals): the second component carries the literal contents
+                for t in tgt:
+                    if lit_list and isinstance(t, (ast.Tuple, ast.List)) and len(t.elts) == 2:
+                        for nm in _names_of_target(t.elts[1]):
+                            if nm not in tv:
+                                tv.add(nm)
+                                changed = True
                 continue
             if _expr_tainted(val, tv):
                 for t in tgt:
@@ -680,3 +769,35 @@ def rule_pa_cleanorder(cx, rep, port):
     t = node_text(cq, 2000)
     per_line = ('strip_comments(l) for l in' in t or 'map(strip_comments)' in t)
     rep.decide(per_line, 'per-line comment strip', cq, 'comment lines are removed line by line', 'comment lines are no longer removed line by line')
+
+
+def rule_pa_subst(cx, rep, port):
+    """text substitution is literal: a replacement operand that is interpreted as a template (`$&`, `$1`, `$$` in JavaScript's
+    String.replace/replaceAll; `\\1`, `\\g<0>`, `\\n` in Python's re.sub) must be a constant written by the authors or a function,
+    never text that can contain the user's expression, literal or column name"""
+    p = cx.port(port)
+    mods = [m for m in p.modules if m in ('rbql_engine', 'rbql', 'rbql_csv', 'csv_utils', 'rbql_pandas', 'rbql_sqlite')]
+    n = 0
+    for m in mods:
+        for c in ast.walk(p.modules[m]):
+            if not isinstance(c, ast.Call):
+                continue
+            repl = None
+            d = dotted(c.func) or ''
+            if port == 'js' and isinstance(c.func, ast.Attribute) and c.func.attr in ('replace', 'replaceAll') and len(c.args) == 2:
+                repl = c.args[1]
+            elif port == 'py' and (d in ('re.sub', 're.subn') or (isinstance(c.func, ast.Attribute) and c.func.attr in ('sub', 'subn') and d.split('.')[0] != 're')) and len(c.args) >= 2:
+                repl = c.args[1] if d in ('re.sub', 're.subn') else c.args[0]
+            if repl is None:
+                continue
+            n += 1
+            fd = enclosing_func(c)
+            where = '{}.{}'.format(m, fd.name if fd is not None else '<module>')
+            is_fn = isinstance(repl, ast.Lambda) or getattr(repl, 'js_function_ref', None) is not None or (isinstance(repl, ast.Name) and (repl.id.startswith('__fn_') or any(k.split(':')[1] == repl.id for k in p.funcs)))
+            if isinstance(repl, ast.Constant) and isinstance(repl.value, str) or is_fn:
+                rep.holds('{}: replacement `{}`'.format(where, node_text(repl, 40)), c, 'constant template or function')
+            elif fd is None or not _expr_tainted(repl, _local_taint(fd, {a.arg for a in fd.args.args})):
+                rep.undecided('{}: replacement `{}`'.format(where, node_text(repl, 40)), c, 'non-constant replacement template that does not derive from a parameter: its content is not analysed')
+            else:
+                rep.violated('{}: replacement `{}`'.format(where, node_text(repl, 40)), c, 'the replacement operand `{}` is not a constant: {} interprets it as a template ({}), so text substituted here is altered when it contains those sequences'.format(node_text(repl, 60), 'String.replace' if port == 'js' else 're.sub', '`$&`, `$1`, `$$`' if port == 'js' else 'backslash escapes and group references'))
+    rep.require_count('template-interpreting substitutions', n, 20 if port == 'js' else 8, (p.files[mods[0]], 0))
